@@ -35,12 +35,15 @@ struct Spec {
     be_bs: bool,
     attested: Option<([u8; 16], usize)>,
     ext: Ext,
+    /// after the extension setter: 0 nothing, 1 the make setter with None, 2 the assertion setter with
+    /// None, 3 the make setter with empty outputs (setter calls that have nothing to add)
+    followup: u8,
 }
 
 impl Spec {
     fn json(&self, index: u64) -> Value {
         json!({"index": index, "rp": self.rp, "counter": self.counter, "up": self.up, "uv": self.uv, "set_be_bs": self.be_bs,
-            "attested": self.attested.map(|(a, l)| json!({"aaguid": hex_short(&a), "credential_id_len": l})), "extensions": format!("{:?}", self.ext).chars().take(60).collect::<String>()})
+            "attested": self.attested.map(|(a, l)| json!({"aaguid": hex_short(&a), "credential_id_len": l})), "extensions": format!("{:?}", self.ext).chars().take(60).collect::<String>(), "second_setter_call_with_nothing_to_add": self.followup})
     }
 }
 
@@ -76,6 +79,7 @@ fn gen(seed: u64, idx: u64) -> Spec {
             3 => Ext::Get(rng.bytes(rng.clone().range(0, 80))),
             _ => Ext::None,
         },
+        followup: if rng.chance(1, 4) { rng.range(1, 3) as u8 } else { 0 },
     }
 }
 
@@ -133,6 +137,12 @@ fn build(s: &Spec, idx: u64) -> Result<Built, String> {
             ext_bytes = Some(oracle::cbor_ser(&Cbor::Map(vec![(text("hmac-secret"), Cbor::Bytes(v.clone()))])));
         }
     }
+    ad = match s.followup {
+        1 => ad.set_make_credential_extensions(None).map_err(|e| format!("{e:?}"))?,
+        2 => ad.set_assertion_extensions(None).map_err(|e| format!("{e:?}"))?,
+        3 => ad.set_make_credential_extensions(Some(make_credential::SignedExtensionOutputs { hmac_secret: None, hmac_secret_mc: None })).map_err(|e| format!("{e:?}"))?,
+        _ => ad,
+    };
     Ok(Built { value: ad, cred_id, key_bytes, ext_bytes })
 }
 
@@ -157,6 +167,12 @@ fn check_value(rep: &mut Report, s: &Spec, idx: u64, sweeps: bool, corrupt_all: 
             return;
         }
     };
+    // a second setter call that has nothing to add may keep or drop the section - the statement fixes
+    // neither - but the ED bit must follow whichever it did
+    let mut built = built;
+    if s.followup != 0 && bytes.len() >= 37 && bytes[32] & authdata::ED == 0 {
+        built.ext_bytes = None;
+    }
     // ---- layout against the own encoder
     let want_flags_core = (if s.up { authdata::UP } else { 0 }) | (if s.uv { authdata::UV } else { 0 }) | (if s.attested.is_some() { authdata::AT } else { 0 }) | (if built.ext_bytes.is_some() { authdata::ED } else { 0 });
     if bytes.len() >= 37 {
